@@ -66,6 +66,16 @@ def make_draw(op, dim, r, core=False, mp=True, momentum=None, odim=None, unit_qu
             args.append(("s", mpf(2) ** r.choice([-4, -30])))
         elif kind == "atol":
             args.append(("s", mpf(0)))
+        elif kind == "lonz":
+            args.append(("s", r.choice([1, -1]) * gen.dyadic(r, 0.1, 10)))
+        elif kind == "lontheta":
+            args.append(("s", gen.dyadic(r, 0.3, 2.8)))
+        elif kind == "loneta":
+            args.append(("s", gen.dyadic(r, -2, 2)))
+        elif kind == "tt":
+            args.append(("s", gen.dyadic(r, 20, 40)))
+        elif kind == "ttau":
+            args.append(("s", gen.dyadic(r, 0.5, 5)))
         elif kind in ("mat2", "mat3", "mat4"):
             args.append(("s", gen.matrix(r, int(kind[-1]))))
         elif kind == "quat":
